@@ -96,7 +96,7 @@ func R12(p *core.Prog) *core.Result {
 		r.Undecided("", "gotype", "package gotype not loaded")
 		return r
 	}
-	unfObj := gp.Types.Scope().Lookup("unfolder")
+	unfObj := typeObj(p, "gotype", "unfolder")
 	if unfObj == nil {
 		r.Undecided("", "unfolder", "interface gotype.unfolder not found")
 		return r
@@ -131,13 +131,13 @@ func R12(p *core.Prog) *core.Result {
 		for _, pair := range [][2]string{{"OnString", "OnStringRef"}, {"OnKey", "OnKeyRef"}} {
 			a, b := methodOf(p, pt, gp.Types, pair[0]), methodOf(p, pt, gp.Types, pair[1])
 			if a == nil || b == nil {
-				r.Undecided(".BYREF-PARITY", t.Obj().Name()+"."+pair[0], "cannot resolve methods")
+				r.Undecided(".BYREF-PARITY", core.TypeName(t)+"."+pair[0], "cannot resolve methods")
 				continue
 			}
 			ra, rb := isRejecting(a), isRejecting(b)
 			pos := p.Pos(t.Obj().Pos())
 			if ra == rb {
-				r.Ok(".BYREF-PARITY", pos, fmt.Sprintf("%s: %s and %s agree (rejecting=%v)", t.Obj().Name(), pair[0], pair[1], ra))
+				r.Ok(".BYREF-PARITY", pos, fmt.Sprintf("%s: %s and %s agree (rejecting=%v)", core.TypeName(t), pair[0], pair[1], ra))
 				continue
 			}
 			handled, rejected := pair[0], pair[1]
@@ -146,8 +146,8 @@ func R12(p *core.Prog) *core.Result {
 				handled, rejected = pair[1], pair[0]
 				rf = a
 			}
-			r.Fail(".BYREF-PARITY", "gotype."+t.Obj().Name()+"|"+pair[0]+"/"+pair[1], pos,
-				fmt.Sprintf("state type %s handles %s but rejects %s (resolved to %s, which only returns an error): the same stream succeeds or fails depending on how the producer delivers strings/keys", t.Obj().Name(), handled, rejected, core.FuncKey(rf)), "")
+			r.Fail(".BYREF-PARITY", "gotype."+core.TypeName(t)+"|"+pair[0]+"/"+pair[1], pos,
+				fmt.Sprintf("state type %s handles %s but rejects %s (resolved to %s, which only returns an error): the same stream succeeds or fails depending on how the producer delivers strings/keys", core.TypeName(t), handled, rejected, core.FuncKey(rf)), "")
 		}
 	}
 	r.Floor("unfolder_state_types", len(stateTypes), 100)
@@ -165,14 +165,14 @@ func R12(p *core.Prog) *core.Result {
 		for _, m := range need {
 			f := methodOf(p, pt, gp.Types, m)
 			if f == nil {
-				r.Undecided(".IGNORE-COMPLETE", t.Obj().Name()+"."+m, "cannot resolve method")
+				r.Undecided(".IGNORE-COMPLETE", core.TypeName(t)+"."+m, "cannot resolve method")
 				continue
 			}
 			if isRejecting(f) {
-				r.Fail(".IGNORE-COMPLETE", "gotype."+t.Obj().Name()+"|"+m, pos,
-					fmt.Sprintf("skip-state %s rejects event %s (resolved to %s): an unknown member whose value contains that event cannot be skipped", t.Obj().Name(), m, core.FuncKey(f)), "")
+				r.Fail(".IGNORE-COMPLETE", "gotype."+core.TypeName(t)+"|"+m, pos,
+					fmt.Sprintf("skip-state %s rejects event %s (resolved to %s): an unknown member whose value contains that event cannot be skipped", core.TypeName(t), m, core.FuncKey(f)), "")
 			} else {
-				r.Ok(".IGNORE-COMPLETE", pos, t.Obj().Name()+" accepts "+m)
+				r.Ok(".IGNORE-COMPLETE", pos, core.TypeName(t)+" accepts "+m)
 			}
 		}
 	}
@@ -297,8 +297,8 @@ func derivedByConversion(arg, param ssa.Value) bool {
 // states pushed by whatever _ignoredField.initState dispatches to, closed
 // under the states their own methods push.
 func ignoreFamily(p *core.Prog, r *core.Result) []*types.Named {
-	sp := p.SPkgs["gotype"]
-	g, _ := sp.Members["_ignoredField"].(*ssa.Global)
+	_ = p.SPkgs["gotype"]
+	g := p.Global("gotype", "_ignoredField")
 	if g == nil {
 		r.Undecided(".IGNORE-COMPLETE", "_ignoredField", "anchor gotype._ignoredField not found")
 		return nil
